@@ -7,6 +7,8 @@ import Proofs.C02.Bits
 import Proofs.C02.SignMsg
 import Proofs.E2E.C02
 import Proofs.C02.EndToEnd
+import Proofs.C02.BmsSig
+import Proofs.C02.Entry
 /-!
 # C02 — ECDSA: signatures verify, verification is the SEC 1 equation, recovery, DER is canonical
 
@@ -178,6 +180,37 @@ theorem bms_accepts_table : ∀ rf ∈ List.range 70,
     (Bms.accepts .p2wpkh rf = decide ((31 ≤ rf ∧ rf ≤ 34) ∨ (39 ≤ rf ∧ rf ≤ 42))) :=
   Bms.accepts_table
 
+/-- T8d (BMS, sign then verify, per address type): whatever `bms.sign` answers — `(rf, r, s)` for the key `q`
+    (compressed or not) and an address of that key, or no address — is accepted by `bms.assert_as_valid` for EVERY
+    address of the key whose type the flag may speak for (`accepts`, the regenerated guard table: BIP137 35..38 / 39..42
+    for their own type, 27..34 for p2pkh, 31..34 also for both segwit types, the Electrum rule), in particular for the
+    address it was signed for; the flag is in 27..42 and `s` is low.  For every `Lawful` group with `p < 2n` (then
+    `key_id < 4`; secp256k1's case), any HMAC, any `hash160` and any point serialization that is a function of the group
+    element (`hser`); `hX`: the x-coordinate screen of `Sig.assert_valid` is complete (proved for `isXCoord`, T2′). -/
+theorem bms_sign_then_verify (L : Lawful o G) (E : Bms.Env α) (isX : ℤ → Bool)
+    (hX : ∀ P, L.abs P ≠ 0 → isX (o.x P) = true)
+    (hser : ∀ P Q c, L.abs P = L.abs Q → E.ser P c = E.ser Q c) (hp : o.p < 2 * o.n)
+    (H : Rfc6979.HashSpec) (mm : Bytes) (q : ℤ) (comp : Bool) (addr : Option Bms.Addr) (fuel : ℕ)
+    (rf : ℕ) (r s : ℤ) (h : Bms.sign o E H mm q comp addr fuel = .ok (rf, r, s)) :
+    (∀ t, Bms.accepts t rf = true →
+        Bms.assertAsValid o E isX (Rfc6979.challenge o.n mm) (Bms.addrOf E t (E.ser (o.mul q o.gen) comp)) rf r s
+          = .ok ()) ∧
+    (∃ t, Bms.ownType E (E.ser (o.mul q o.gen) comp) comp addr = some t ∧ Bms.accepts t rf = true) ∧
+    27 ≤ rf ∧ rf ≤ 42 ∧ s ≤ o.n / 2 :=
+  Bms.sign_then_verify L E isX hX hser hp H mm q comp addr fuel rf r s h
+
+/-- T5e (`der_parse_accepts_iff`): for 256-bit `r`, `s` the strict parser reads `b` as `(r, s)` EXACTLY when `b` is the
+    BIP66 / DER short form `30 L 02 lr R 02 ls S` (`Der.Bip66`: nothing after, `R`, `S` non-empty, no sign bit, no
+    unneeded leading zero, big-endian values `r`, `s`). -/
+theorem der_parse_accepts_iff (b : Bytes) (r s : ℕ) (hr : r < 2 ^ 256) (hs : s < 2 ^ 256) :
+    Der.parseStrict b = some (r, s) ↔ Der.Bip66 b r s :=
+  Der.parseStrict_iff_bip66 b r s hr hs
+
+/-- T5e' : … and that form is unique: two BIP66 strings of one 256-bit signature are one string -/
+theorem der_bip66_unique (b₁ b₂ : Bytes) (r s : ℕ) (hr : r < 2 ^ 256) (hs : s < 2 ^ 256)
+    (h₁ : Der.Bip66 b₁ r s) (h₂ : Der.Bip66 b₂ r s) : b₁ = b₂ :=
+  Der.bip66_injective b₁ b₂ r s hr hs h₁ h₂
+
 /-- T5a (DER, parse ∘ serialize): for all naturals `r, s` the encoding `Sig.serialize` writes (the TRANSLATED
     writers `Gen.Ecdsa.serialize_scalar` / `varBytesSerialize`, regenerated from dsa.py / var_bytes.py) is read
     back as `(r, s)`, by the strict and by the lax parser — provided it stays within CompactSize's cap on a
@@ -226,6 +259,12 @@ theorem der_lax_of_strict (b : Bytes) (σ : ℕ × ℕ) (h : Der.parseStrict b =
     Der.parseLax b = some σ :=
   Der.lax_of_strict b σ h
 
+example : Der.Bip66 [0x30, 0x07, 0x02, 0x01, 0x01, 0x02, 0x02, 0x00, 0x80] 1 128 :=
+  (der_parse_accepts_iff _ 1 128 (by norm_num) (by norm_num)).mp (by decide)
+-- non-vacuity (T8d) on the concrete lawful witness (p = n = 7, identity serialization and hash, constant toy HMAC):
+-- `bms.sign` answers, so the theorem's conclusion is about an actual run
+example : Bms.sign Witness.ops ⟨fun P _ => [UInt8.ofNat P.val], id⟩ ⟨fun _ _ => [0x40], 1⟩ [0x60] 5 true none 4 =
+    .ok (31, 4, 1) := by decide +kernel
 -- non-vacuity (DER): a 128 needs its pad byte, a padded 1 and a trailing byte are refused by strict only
 example : Der.serialize 1 128 = .ok [0x30, 0x07, 0x02, 0x01, 0x01, 0x02, 0x02, 0x00, 0x80] := by decide
 example : Der.parseStrict [0x30, 0x07, 0x02, 0x01, 0x01, 0x02, 0x02, 0x00, 0x80] = some (1, 128) := by decide
@@ -351,6 +390,29 @@ theorem ecdsa_verify_api_is_sec1_secp256k1 (c : ℤ)
         (@valid_of_pubKeyOk secp256k1_p ⟨secp256k1_p_prime⟩ secp256k1 secpOk Q hk).2.1⟩ r s) :=
   Btc.E2E.ecdsa_verify_api_is_sec1_secp256k1_any_key c Q hk r s
 
+/-- 'never an exception' (the verify entry point, secp256k1, nothing assumed): on ANY octets `m` (digest of any
+    length), ANY octets `sig` and ANY integer pair `Q`, the model of `dsa.verify_(m, Q, sig)` — strict DER parse,
+    `Sig.assert_valid`, digest-size check, `point_from_pub_key`, the equation; every refusal turned into `False` — is a
+    total boolean function (its type), `True` EXACTLY when `sig` is the canonical DER of some `(r, s)`, `m` has the
+    hash's size, `Q` is a public key and the SEC 1 predicate `verify` holds (`ecdsa_verify_api_is_sec1_secp256k1`:
+    the SEC 1 relation for the point `Q` denotes), and `False` in every other case. -/
+theorem ecdsa_verify_entry_total_secp256k1 (hlen : ℕ) (m : Bytes) (Q : Point) (sig : Bytes) :
+    verifyDer hlen m Q sig = true ↔
+      ∃ r s : ℕ, Der.parseStrict sig = some (r, s) ∧ m.length = hlen ∧ pubKeyOk secp256k1 Q = true ∧
+        verify (EC.ops secp256k1) (Rfc6979.challenge secp256k1.n m) Q r s = true :=
+  Btc.E2E.verifyDer_iff hlen m Q sig
+
+/-- the same entry point taking a `Sig` object, any curve: what can make it `True` (all else is `False`) -/
+theorem ecdsa_verify_entry_total (C : Curve) (hlen : ℕ) (m : Bytes) (Q : Point) (r s : ℤ) :
+    verifyApi C hlen m Q r s = true ↔
+      m.length = hlen ∧ pubKeyOk C Q = true ∧
+        verifyFull (EC.ops C) (isXCoord C) (Rfc6979.challenge C.n m) Q r s = true :=
+  Btc.E2E.verifyApi_iff C hlen m Q r s
+
+-- non-vacuity: garbage in, `False` out (no third outcome), on inputs of the "wrong" sizes
+example : verifyDer 32 [] (0, 0) [] = false := by decide
+example : verifyDer 32 [1, 2, 3] (-5, 7) [0x30, 0x06, 0x02, 0x01, 0x01, 0x02, 0x01, 0x01] = false := by decide +kernel
+
 /-- T2′ with no cofactor hypothesis, any `CurveOk` curve, keys of the `n`-torsion carrier (every key built from `G`):
     the public boolean with the executed x-coordinate screen is the SEC 1 relation -/
 theorem ecdsa_verify_api_is_sec1_ec {p : ℕ} [Fact p.Prime] {C : Curve} (K : CurveOk p C)
@@ -444,8 +506,8 @@ example : ∃ Q', recover (EC.ops toyC) true 0 3 7 12 true = .ok Q' ∧
   ecdsa_recover_signer_ec toyOk (by decide) (by decide) (by decide) toy_ecdsa_sign true true (fun h => h)
 -- T6 / T4c hypotheses met by concrete runs over btclib's arithmetic on the proved toy curve: two signatures sharing
 -- nonce 2 crack to (5, 2); `sign_` with a toy HMAC and an explicit nonce answers, and the theorem's verdict follows
-example : crack (EC.ops toyC) 3 7 12 4 7 28 = .ok (5, 2) :=
-  ecdsa_crack_ec toyOk (k := 2) (q := 5) (id1 := 0) (id2 := 0) (by decide) (by decide)
+example : crack (EC.ops toyC) 3 7 19 4 7 4 = .ok (5, 2) :=
+  ecdsa_crack_ec toyOk (k := 2) (q := 5) (id1 := 1) (id2 := 1) (by decide) (by decide)
     (by decide +kernel) (by decide +kernel) (by decide)
 example : verify (EC.ops toyC) (Rfc6979.challenge toyC.n [0x1f]) ((EC.ops toyC).mul 5 toyC.G) 7 12 = true :=
   (ecdsa_sign_msg_verifies_ec toyOk ⟨fun _ _ => [0], 1⟩ [0x1f] 5 (some 2) true false 1 (7, 12)
